@@ -20,7 +20,7 @@ DECIDING = ["C01.rate_matrix"]
 RULE = ("random SqRA systems: n in 2..12, symmetric Erdos-Renyi pattern (p in [0,0.7], forced isolated rows, disconnected blocks), "
         "S,h,V log-uniform over 4 decades, energies N(0,sigma) with sigma in {0.1,10,300,2000} kJ/mol (pairs beyond the 500 kJ/mol cap "
         "occur), T in [50,1000] K, D over 4 decades, both storage forms (canonical csr / row-major coo); thorough adds all 64 "
-        "symmetric patterns for n=4 in both forms. Each system is called 3 times (base, energies shifted, D scaled). Non-trivial = "
+        "symmetric patterns for n=4 in both forms. Each system is called 3 times (base, energies shifted, D scaled), half of them also repeatedly on one SQRA object with other D, T in between. Non-trivial = "
         ">=1 off-diagonal entry and >=1 adjacent pair with E_i != E_j; distinct by digest of the generated system")
 ASSUMPTIONS = ["S and h share one sparsity pattern and stored order (calls where they do not are skipped, counted)",
                "capped exponent kept <= 600 by T >= 50 K so exp() never overflows (outside the documented cap's guarantee)",
@@ -164,8 +164,14 @@ def drive(SQRA, sysd, form, cls=None, sample=False):
     try:
         s, h = build(SQRA, sysd, form)
         E, V, T, D = sysd["E"], sysd["V"], sysd["T"], sysd["D"]
-        Q = SQRA(energies=E.copy(), volumes=V.copy(), distances=h, surfaces=s).get_rate_matrix(D, T)
+        obj = SQRA(energies=E.copy(), volumes=V.copy(), distances=h, surfaces=s)
+        Q = obj.get_rate_matrix(D, T)
         Qd = np.asarray(Q.todense())
+        if sysd["n"] % 2 == 0:
+            # history: the SAME object (same loaded matrices) is asked again with other parameters and then with the first ones
+            obj.get_rate_matrix(2.5 * D, 0.8 * T)
+            Qr = np.asarray(obj.get_rate_matrix(D, T).todense())
+            REC.check("C01.repeatable_on_one_object", np.array_equal(Qr, Qd), {"n": sysd["n"], "form": form})
         dE = E[sysd["rows"]] - E[sysd["cols"]]
         if len(sysd["rows"]) > 0 and np.any(dE != 0):
             REC.nontrivial_case()
